@@ -26,6 +26,27 @@ claimed = {
  'C15': ('W', 'model_checking', 'exhaustive enumeration of all ordered pairs of persisted versions on cache-less recording stores; oracle = distinct Load names vs 2*D+2',
    'For all ordered pairs of all versions of the universe, the distinct names passed to Persist.Load during DiffIter and DiffLinks are counted and compared with 2*D+2 (D from the reference walker); identical versions must load nothing.',
    'Finite universes; thorough adds larger seeded trees with single/two-key modifications.', 'DESIGN.md C15'),
+ 'C03': ('F+S', 'model_checking', 'engine F (every failing subset of the writes, by node name, with retries) over every pre-state of the closure, and engine S: stateless DFS over all interleavings of MakeRoot goroutines up to a preemption bound on an instrumented copy of package mast under a cooperative scheduler',
+   'Part A: for every reachable tree state that has something to write, every non-empty subset of its Store calls fails (<=4 writes; singles and pairs above), followed by a clean retry, a retry failing again, and a third attempt: an error is reported iff a write failed, the tree still answers Get/Size and accepts an insert, a later success implies every reachable node is in the store under its own name, and a cache shared with a second store never causes a write to be skipped. Part B: one representative tree per number of dirty nodes and height; all schedules of caller, dispatcher and workers with <=2 preemptions (<=3 writes) / <=1 / 0, each with no fault and with each single write failing; at the instant MakeRoot returns nil every reachable node must already be in the store; no deadlock, no panic.',
+   'Sequential consistency; >2 preemptions and >5 concurrent writes outside the bound (the 40-slot gate never saturates in the explored scenarios); the instrumenter is validated by running the repository tests on the instrumented package in pass-through mode.', 'DESIGN.md 3.5, 3.7, C03'),
+ 'C11': ('S', 'model_checking', 'engine S: stateless DFS over all interleavings (<=2 preemptions) of 2-3 threads, each with its own tree over a shared store and cache, at environment-call and sync-operation granularity on the instrumented package; differential oracle; plus a free-running -race pass',
+   'Every pair of single operations (Get/Insert/Delete on colliding keys, Iter, MakeRoot, Clone, LoadMast) and insert+MakeRoot against every operation, for trees obtained by LoadMast of one root through a shared cache or by Clone, on three bases (plain, height-2 user keys, evicting cache): in every schedule each thread must observe exactly what it observes alone and the base root must still reload to its contents. The same thread bodies run 19k times free-running under the Go race detector.',
+   'Scheduler-level exploration assumes sequential consistency and atomicity between scheduling points; the race pass samples (it is not the deciding step); >2 preemptions, >3 threads outside the bound.', 'DESIGN.md 3.7, C11'),
+ 'C12': ('F', 'fault_enumeration', 'engine F: for every pre-state of the closure and every operation, a 0-deviation execution counts the environment calls, then one execution per Load / KeyCompare / Marshal call index (pairs in the thorough tier) with that answer replaced by an error',
+   'Insert/Delete of every key and value, Get, Iter, SeekIter, DiffIter, DiffLinks, Clone and cursor navigation, from every reachable tree state (all mixes of persisted, loaded and dirty nodes): whenever the call returns an error the contents, Size and Height must be what they were, and the same call retried fault-free must behave like the fault-free execution.',
+   'Finite universes; panics under injected faults are counted but not judged (the property speaks of returned errors).', 'DESIGN.md 3.5, C12'),
+ 'C14': ('enum', 'exploration', 'exhaustive enumeration of nodes / layer inputs / key pairs with a three-way comparison: implementation vs independent re-implementation vs frozen golden vectors',
+   'Roots of every version of 180 configurations (all 81 layer assignments of 4 user keys, all built-in key types, both formats), DefaultLayer over integers -300..300, powers/multiples of bf up to 2^63 and 500 strings x 19 branch factors x 14 key types, DefaultKeyCompare over all pairs, and the defaults of new trees are compared with an independent encoder/hash/layer/order implementation and with golden vectors generated once and cross-checked against the pinned commit.',
+   'Go stdlib crc64/json and x/crypto BLAKE2b are the trusted base; "every release and host" is approximated by this tree on this host against frozen vectors.', 'DESIGN.md C14'),
+ 'C17': ('X', 'fault_enumeration', 'engine X: crash-point enumeration - one child process per (node size, byte offset, mode) runs the real file store under RLIMIT_FSIZE so the kernel cuts the write at exactly that byte (process killed by SIGXFSZ, or EFBIG returned), then restart + Load + re-Store + Load',
+   'Every byte offset 0..len for node sizes 1, 33, 4097 (10000 and strided 70000 in the thorough tier), both crash and I/O-error mode: the first Load after the cut must be not-found or the complete bytes, a re-Store must make the node complete, an acknowledged Store must be complete.',
+   'No power-loss / page-cache model (the property does not ask for one); RLIMIT_FSIZE semantics of the kernel.', 'DESIGN.md 3 (engine X), C17'),
+ 'C18': ('enum', 'exploration', 'exhaustive enumeration of backend x name x payload for a fixed call sequence, plus one execution per fault position on an in-process fake S3 client',
+   'In-memory, file and S3 (fake S3Interface, three bucket/prefix pairs) backends x 31 names x 5 payloads (empty, binary, 1 MiB): round trip, missing names error, double store, two names, exact bucket/prefix+name addressing; an error at each S3 client call and a body failing mid-read must be returned to the caller.',
+   'Concurrent double stores are covered for the in-memory store only through engine S in C03/C11 scenarios; real S3 semantics are represented by the fake client.', 'DESIGN.md C18'),
+ 'C19': ('enum', 'exploration', 'exhaustive enumeration of (persisted version x perturbation); the reference decoder/order/layer functions decide which clause of the property holds, only those cases are judged',
+   'Every version of six universes x {unknown formats, missing top node, every proper prefix of the top node, every mismatched (keys,values,links) framing, rearranged/duplicated keys, reversed loader order, Height 0..H+3, BranchFactor 2/3/4/5/16}: LoadMast must return an error (not panic, not a tree), also when the top node already sits in a shared node cache.',
+   'Perturbations for which no clause of the property holds are not judged.', 'DESIGN.md C19'),
  'C04': ('W', 'model_checking', 'explicit-state BFS to closure on the real implementation; oracle = independently built canonical Merkle search tree, encoded and hashed independently',
    'At every MakeRoot transition of every reachable state the returned Root (link, height, size) is compared with the root of the canonical tree that the reference builder constructs from the entries the tree actually holds (layers and height rule re-derived from the definition, independent codec and BLAKE2b). All histories of the alphabet ending in the same contents are thereby compared with each other and with the reference.',
    'Finite universes; all 4^5 layer assignments of a user Key type in the thorough tier, 8 representative ones in quick; reference builder/codec/hash are the trusted side.', 'DESIGN.md C04'),
@@ -73,6 +94,10 @@ m = {
  },
  'engines': [
    {'name': 'W', 'path': 'harness/explore', 'serves_properties': [i for i in ids if i in claimed and claimed[i][0]=='W'], 'kind_free_text': 'explicit-state BFS over operation histories of the real implementation (replay successors), canonical heap-dump state key'},
+   {'name': 'F', 'path': 'harness/checks/c12.go, c03seq.go', 'serves_properties': ['C03', 'C12'], 'kind_free_text': 'fault explorer: 0-deviation reference execution, then one execution per environment-call index answered by an error, from every pre-state of engine W'},
+   {'name': 'S', 'path': 'harness/sched, overlay/verifrt, harness/cmd/instr', 'serves_properties': ['C03', 'C11'], 'kind_free_text': 'source instrumentation (go/ast) of sync, go and channel operations to a cooperative runtime; stateless DFS over schedules with iterative preemption bound and ownership-based reduction'},
+   {'name': 'X', 'path': 'harness/checks/c17.go', 'serves_properties': ['C17'], 'kind_free_text': 'crash-point enumerator: child processes under RLIMIT_FSIZE'},
+   {'name': 'enum', 'path': 'harness/checks/c14.go, c18.go, c19.go', 'serves_properties': ['C14', 'C18', 'C19'], 'kind_free_text': 'exhaustive enumeration of finite input spaces against independent reference implementations and golden vectors'},
  ],
  'checks': checks,
  'not_applicable': [{'property_id': i, 'reason': not_yet} for i in ids if i not in claimed],
